@@ -212,12 +212,26 @@ func runC09(c *Ctx) {
 		uc.p4, uc.p6 = nil, nil
 		// peer counts around every size a datagram limit could cut at (MTU 1500/1472/1280, 512, 64 KiB)
 		for j := r.Pick(0, 1, 2, 5, 50, 100, 80, 81, 82, 200, 242, 243, 244, 300); j > 0; j-- {
-			uc.p4 = append(uc.p4, r.Bytes(6))
+			e := r.Bytes(6)
+			if r.Intn(6) == 0 { // the same IPv4 address held in net.IP's 16-byte form
+				e = append(append([]byte{0, 0, 0, 0, 0, 0, 0, 0, 0, 0, 0xff, 0xff}, e[:4]...), e[4:]...)
+			}
+			uc.p4 = append(uc.p4, e)
 		}
 		for j := r.Pick(0, 1, 2, 5, 50, 27, 28, 69, 70, 80, 81, 82, 100, 200); j > 0; j-- {
 			uc.p6 = append(uc.p6, r.Bytes(18))
 		}
-		if r.Intn(3) != 0 {
+		big := i%500 == 3
+		if big { // a swarm and a max_numwant at and beyond what one datagram holds (65507 bytes: 10914 / 3638 entries)
+			uc.logic = "ok"
+			if i%1000 == 3 {
+				uc.p4gen = r.Pick(10915, 12000) - len(uc.p4)
+				uc.p6gen = r.Pick(3639, 5000) - len(uc.p6)
+			} else {
+				uc.p4gen, uc.p6gen = 10914-len(uc.p4), 3638-len(uc.p6)
+			}
+		}
+		if big || r.Intn(3) != 0 {
 			f := randAnnounce(r, &uc)
 			uc.pkt = f.build()
 			c.Kind("announce-" + uc.logic)
